@@ -381,6 +381,13 @@ class World:
         env.update(self._bind(m.node, list(args), kwargs or {}, skip_self=True))
         env["self"] = inst
         it = Interp(env, inst.attrs, self.region, methods={n: mm.node for n, mm in allm.items()}, cls_name=inst.cls.name, externals=self.externals())
+        from .alg import is_memoising, memo_key
+        if is_memoising(m.node):
+            memo = self.externals().setdefault("__memo__", {})
+            key = (m.node.name, getattr(m.node, "lineno", 0), id(inst), memo_key(list(args)), memo_key(sorted((kwargs or {}).items())))
+            if key not in memo:
+                memo[key] = it.run(A.strip_docstring(m.node.body))
+            return memo[key]
         return it.run(A.strip_docstring(m.node.body))
 
     def call_func(self, f, args, kwargs=None):
